@@ -308,3 +308,17 @@ Definition g_assign (c : config) (k : akind) (conv : Z -> Z) (dst src : view) (m
   end.
 (* range / initializer-list assignment :2099, :2171, :999: size() == number of values *)
 Definition asrt_assign_vals (n_vals : Z) (dst : view) : bool := v_size dst =? n_vals.
+
+(* ---------------- layout_t::scale (member_cast, reinterpret_array_cast) ---------------- *)
+(* detail/layout.hpp:985-989 AFTER the fix notes/patches_C20/scale-offset-rebased.diff: the offset is scaled with the stride,
+     assert((stride_*num) % den == 0);  assert((offset_*num) % den == 0);
+     return layout_t{sub_.scale(num, den), stride_*num/den, offset_*num/den, nelems_*num/den};
+   (before the fix: assert(offset_ == 0) "TODO implement" and the offset left unscaled = Layout.d_scale, which is what
+   C12 uses for zero-based views; the two agree there, see scale_fixed_zero_offset).  Plain asserts, every level. *)
+Definition d_scale_fixed (num den : Z) (d : dim) : dim :=
+  mkdim (Z.quot (d_stride d * num) den) (Z.quot (d_offset d * num) den) (Z.quot (d_nelems d * num) den).
+Definition l_scale_fixed (num den : Z) (l : layout) : layout := map (d_scale_fixed num den) l.
+Definition asrt_scale_stride (num den : Z) (l : layout) : bool :=
+  forallb (fun d => Z.rem (d_stride d * num) den =? 0) l.
+Definition asrt_scale_plain (num den : Z) (l : layout) : bool :=
+  forallb (fun d => (Z.rem (d_stride d * num) den =? 0) && (Z.rem (d_offset d * num) den =? 0)) l.
